@@ -429,6 +429,8 @@ TVOptimizeQ ==
           \* the basis is judged below against the LP the user sees, not inside SolveFails; AbortLeavesBasis is re-stated here
           base == (SolveFails(sq, [r EXCEPT !.hasBasis = FALSE], t, TRUE) \ {"AbortLeavesBasis"})
                   \cup Fail("AbortLeavesBasis", r.status \in {ST_ABORT_ITER, ST_ABORT_VALUE} /\ r.iters > 0 => r.hasBasis)
+                  \* a solve that used up its iteration budget reports that, not an unspecified error
+                  \cup Fail("LimitReportedAsError", sq.iterlimit >= 0 /\ r.iters >= sq.iterlimit => r.status # ST_ERROR)
           conclusive == r.status \in {ST_OPTIMAL, ST_UNBOUNDED, ST_INFEASIBLE}
           s1 == [s0 EXCEPT !.status = r.status, !.hasSol = r.hasSol, !.hasBasis = r.hasBasis,
                            !.brow = IF r.hasBasis THEN r.brow ELSE <<>>, !.bcol = IF r.hasBasis THEN r.bcol ELSE <<>>,
